@@ -19,6 +19,8 @@ class InlineLib(Hooks):
     def want_inline(self, ex, callee, node):
         if not callee.file.startswith(("libtfhe/", "include/")):
             return False
+        if callee.get("lambda"):
+            return ex.depth < 8          # a closure's body is part of the function that wrote it
         if callee.name.startswith(("new_", "delete_", "alloc_", "free_", "init_", "destroy_")) or callee.get("kind") in ("ctor", "dtor"):
             return False
         if self.stop(callee):
@@ -30,7 +32,7 @@ class InlineLib(Hooks):
 
 def _file_local(f):
     """a helper with internal linkage (static, not a member): part of the implementation of whoever calls it"""
-    return bool(f.get("static")) and not f.get("record")
+    return (bool(f.get("static")) and not f.get("record")) or bool(f.get("lambda"))
 
 
 # "the function on its own": nothing inlined except its file-local static helpers
@@ -400,3 +402,37 @@ def visits(lp, lo, hi):
     if st == -1 and lp["cmp"] in (">", ">="):
         return (sym.add(lp["hi"], I(1)) if lp["cmp"] == ">" else lp["hi"]) == lo and sym.add(lp["lo"], I(1)) == hi
     return False
+
+
+def memcpy_as_stores(v, fn, ps):
+    """memcpy / memmove(dst, src, nbytes) between typed arrays as the element statement it stands for:
+    for u in [0, nbytes / sizeof(element)): dst[u] = src[u]   (element type from the record field or parameter the destination
+    is reached through; left alone when the type is not known or the byte count is not a multiple of the element size)"""
+    from .ioseq import type_of
+    from .symexec import pointee_size
+    roots = {sym.sym(p["n"]): p["t"] for p in fn.params}
+    out = []
+    for p in ps:
+        if p["kind"] == "call" and p["name"] in ("memcpy", "std::memcpy", "memmove", "std::memmove") and len(p["args"]) == 3 \
+                and all(a is not None for a in p["args"]):
+            strip = lambda t: strip(t[2]) if t[0] == "cast" else t
+            dst, src, nb = strip(p["args"][0]), strip(p["args"][1]), strip(p["args"][2])
+            ty = type_of(v, dst, roots)
+            es = pointee_size(ty, v.records) if ty else None
+            cnt = None
+            if es:
+                if es == 1:
+                    cnt = nb
+                else:
+                    items = sym.poly_items(nb)
+                    if items and all(c % es == 0 for _, c in items):
+                        cnt = sym.binop("/", nb, I(es)) if sym.const_value(nb) is None else I(sym.const_value(nb) // es)
+            if cnt is not None:
+                u = sym.sym("u@%s" % p["line"])
+                lp = {"e": "loop", "var": u, "lo": ZERO, "cmp": "<", "hi": cnt, "step": I(1), "body": [], "l": p["line"], "name": "u",
+                      "algorithm": p["name"]}
+                out.append({"kind": "store", "loops": p["loops"] + [lp], "guards": p["guards"], "lv": sym.idx(dst, u), "op": "=",
+                            "val": sym.idx(src, u), "line": p["line"], "stack": p.get("stack"), "pre": p.get("pre"), "from_call": p["name"]})
+                continue
+        out.append(p)
+    return out
